@@ -14,7 +14,10 @@ import (
 	"fmt"
 	"os"
 	"path/filepath"
+	"regexp"
 	"runtime"
+	"sort"
+	"strings"
 	"sync"
 	"sync/atomic"
 	"testing"
@@ -352,17 +355,17 @@ func vfC40Run(v *vfT, c vfC40Case) {
 	ok, dump := vfWaitActors(actors, 90*time.Second)
 	stopWriters.Store(true)
 	if okw, dumpw := vfWaitActors(writers, 30*time.Second); !okw {
-		v.Violation("C40/deadlock", "a repeated call (local-track write or getter loop) did not return within 30s after every other call had returned (or hung with them): %s; other actors: %s", dumpw, dump)
+		v.Violation("C40/deadlock"+vfC40BlockedKey(dumpw+"\n\n"+dump), "a repeated call (local-track write or getter loop) did not return within 30s after every other call had returned (or hung with them): %s; other actors: %s", dumpw, dump)
 	}
 	closed := vfNewActors()
 	closed.Go("closeA", func() { _ = pcA.Close() })
 	closed.Go("closeB", func() { _ = pcB.Close() })
 	ok2, dump2 := vfWaitActors(closed, 60*time.Second)
 	if !ok {
-		v.Violation("C40/deadlock", "concurrent API calls did not return within 90s: %s", dump)
+		v.Violation("C40/deadlock"+vfC40BlockedKey(dump), "concurrent API calls did not return within 90s: %s", dump)
 	}
 	if !ok2 {
-		v.Violation("C40/deadlock", "Close did not return within 60s after the concurrent phase: %s", dump2)
+		v.Violation("C40/deadlock"+vfC40BlockedKey(dump2), "Close did not return within 60s after the concurrent phase: %s", dump2)
 	}
 	if len(c.Loopers) > 0 {
 		v.Label("getter-loops")
@@ -469,4 +472,35 @@ func TestVerif_C40_Storm(t *testing.T) {
 		c.CloseBy = rapid.IntRange(-1, nw-1).Draw(v.R, "closeby")
 		return c
 	}, vfC40Run)
+}
+
+var vfC40FrameRe = regexp.MustCompile(`^github\.com/pion/webrtc/v4\.((?:\(\*?\w+\)\.)?\w+)`)
+
+// vfC40BlockedKey names where the harness's own (caller) goroutines are stuck: for every goroutine of
+// the dump that is one of the harness's actors, the innermost pion/webrtc function it is in.  The
+// key makes a deadlock's class specific to the call that hangs ("/(*DTLSTransport).Stop").
+func vfC40BlockedKey(dump string) string {
+	set := map[string]bool{}
+	for _, g := range strings.Split(dump, "\n\n") {
+		if !strings.Contains(g, "(*vfActors).Go.func1") {
+			continue
+		}
+		for _, l := range strings.Split(g, "\n") {
+			m := vfC40FrameRe.FindStringSubmatch(l)
+			if m == nil || strings.HasPrefix(m[1], "vf") || strings.HasPrefix(m[1], "(*vf") || strings.HasPrefix(m[1], "(vf") {
+				continue
+			}
+			set[m[1]] = true
+			break
+		}
+	}
+	if len(set) == 0 {
+		return ""
+	}
+	var ks []string
+	for k := range set {
+		ks = append(ks, k)
+	}
+	sort.Strings(ks)
+	return "/" + strings.Join(ks, "|")
 }
